@@ -49,7 +49,7 @@ def run(repo: Repo, rep, tier: str):
 # ------------------------------------------------------------------------------------ R1
 def empty_synth_guard(repo: Repo, rep, P: str):
     synth = repo.cls("Synth", module="rv.synth")
-    fn = inline.flatten(repo, synth, repo.own_method(synth, "chunks"))
+    fn = _writer_nf(repo, synth, "chunks")
     rel = synth.file.rel
     construct = f"{rel}:Synth.chunks"
     rep.func("rv.synth.Synth.chunks")
@@ -145,7 +145,7 @@ def sibling_writers(repo: Repo, rep, P: str):
     synth = repo.cls("Synth", module="rv.synth")
     prows = [r for r in codec.writer_rows(repo, proj, repo.own_method(proj, "chunks")) if any("self.modules" in l for l in r.loops)]
     srows = codec.writer_rows(repo, synth, repo.own_method(synth, "chunks"))
-    pd, sd = tail_descriptor(prows, repo.own_method(proj, "chunks")), tail_descriptor(srows, repo.own_method(synth, "chunks"))
+    pd, sd = tail_descriptor(prows, _writer_nf(repo, proj, "chunks")), tail_descriptor(srows, _writer_nf(repo, synth, "chunks"))
     pcon, scon = f"{proj.file.rel}:Project.chunks", f"{synth.file.rel}:Synth.chunks"
     rep.func("rv.project.Project.chunks[module tail] ~ rv.synth.Synth.chunks")
     want_order = ["CVAL", "CMID", "CHNK", "SPECIAL", "SEND"]
@@ -196,7 +196,7 @@ def sibling_writers(repo: Repo, rep, P: str):
         rep.ok(f"{P}.R2", scon, "stand-alone tail ≡ in-project tail", "sibling writers agree on all compared fields")
     rep.sample({"in_project_tail": {k: pd.get(k) for k in keys}, "stand_alone_tail": {k: sd.get(k) for k in keys}})
     # frozen difference: Synth.chunks recomputes attachment first
-    sfn = inline.normalize(repo, synth, repo.own_method(synth, "chunks"))
+    sfn = _writer_nf(repo, synth, "chunks")
     p_rc = [inline.pos(n) for n in ast.walk(sfn) if (isinstance(n, ast.Attribute) and n.attr == "recompute_controller_attachment")
             or (isinstance(n, ast.Constant) and n.value == "recompute_controller_attachment")]
     # the call itself (a getattr-bound local is called later than it is looked up)
@@ -235,7 +235,7 @@ def synth_header_context(repo: Repo, rep, P: str, rule: str):
     argument the module decides from its own parent, and a module attached to a project puts the in-project-only chunks
     (SXXX/SYYY/SZZZ/SVPR …) into the .sunsynth."""
     synth = repo.cls("Synth", module="rv.synth")
-    fn = repo.own_method(synth, "chunks")
+    fn = _writer_nf(repo, synth, "chunks")
     scon = f"{synth.file.rel}:Synth.chunks"
     calls = [c for c in walk_no_nested(fn) if isinstance(c, ast.Call) and isinstance(c.func, ast.Attribute) and c.func.attr == "iff_chunks"]
     if not calls:
@@ -258,6 +258,12 @@ def synth_header_context(repo: Repo, rep, P: str, rule: str):
             rep.ok(f"{P}.{rule}", scon, norm(c), "stand-alone context", nontrivial=False)
         else:
             rep.violation(f"{P}.{rule}", scon, norm(c), "the synth writer must emit the module header with in_project=False", where)
+
+
+def _writer_nf(repo: Repo, ci, name: str) -> ast.FunctionDef:
+    """A container's writer in normal form, with the module's helper generators (`self.module._controller_chunks()`) read through."""
+    mod_k = repo.cls("Module", module="rv.modules.module")
+    return inline.normalize(repo, ci, repo.own_method(ci, name), receivers={"module": mod_k, "self.module": mod_k})
 
 
 def _resolve(e: ast.expr, defs: Dict[str, ast.expr], depth: int = 5) -> ast.expr:
